@@ -166,3 +166,47 @@ def is_nan_bits(b, fmt):
 
 
 FP_BYTES = {"f": 4, "d": 8, "ld": 10}
+
+
+def run_cmds(exe, items, timeout=300, env=None):
+    """items: list of ("M", text) or ("c", "<command line>").  Returns (outputs, died): outputs[i] = list of output
+    lines of item i (None if never reached); died = index of the item in progress when the runner died, or None."""
+    parts = []
+    for kind, val in items:
+        if kind == "M":
+            tb = val.encode()
+            parts.append(b"M %d\n" % len(tb) + tb)
+        else:
+            parts.append(val.encode() + b"\n")
+    e = dict(os.environ)
+    if env:
+        e.update(env)
+    try:
+        p = subprocess.run([exe], input=b"".join(parts), stdout=subprocess.PIPE, stderr=subprocess.PIPE, timeout=timeout, env=e)
+        rc, out = p.returncode, p.stdout.decode("utf-8", "replace")
+    except subprocess.TimeoutExpired as ex:
+        rc, out = -9, (ex.stdout or b"").decode("utf-8", "replace")
+    outputs = [None] * len(items)
+    cur = None
+    lines = out.split("\n")
+    k = 0
+    while k < len(lines):
+        ln = lines[k]
+        if ln.startswith("B "):
+            cur = int(ln[2:]) - 1
+            if cur < len(outputs):
+                outputs[cur] = []
+        elif cur is not None and cur < len(outputs) and ln != "":
+            if ln.startswith("T ") and ln[2:].isdigit():      # T <len>\n<text>
+                n = int(ln[2:])
+                rest = "\n".join(lines[k + 1:])
+                outputs[cur].append("T " + rest[:n])
+                consumed = rest[:n].count("\n")
+                k += consumed + 1
+            else:
+                outputs[cur].append(ln)
+        k += 1
+    died = None
+    if rc != 0 or not any(o and o[-1] == "Z" for o in outputs if o) and "Z" not in lines:
+        died = cur
+    return outputs, died
